@@ -203,6 +203,14 @@ ASSUMPTIONS = [
     'successor; every 97th successor is cross-checked against a full replay '
     '(checkpoint_crosschecks), and every reported violation is re-executed '
     'twice by full replay in fresh directories',
+    'canonical state: cache entries (generation, bad flag, generations used, '
+    'directory order), .ready, apps/ with container ids renamed to (instance, '
+    'generation) and their data/ flag files, running/ and cleanup/ links '
+    '(names normalised, temp names -> .tmp, non-links listed apart) with the '
+    'site that made each, pending notification FIFO, pending tombstones, '
+    'AppCfgMgr._is_active; validated by the engine\'s bisimulation spot-check '
+    '(all pairs of histories merged at depth <= 3: same menu, pairwise-merging '
+    'successors, same verdicts)',
     'pruned transitions (cannot change anything but the position of no-op '
     'notifications): instance events crash-point variants while the manager is '
     'inactive, touching .ready while it is active, restart of an inactive '
